@@ -692,10 +692,13 @@ def sequence_of_docs(ctx, left, docs, right, dangle=False, force_break=False):
 
         if is_commented(doc):
             comment_str = doc.annotation.value
+            # The dangling comma of a one-element tuple must come
+            # before the comment, not inside it.
+            comma = COMMA if (not last or dangle) else NIL
             # Try to fit the comment at the end of the same line.
             flat_version = concat([
                 doc,
-                COMMA if not last else NIL,
+                comma,
                 '  ',
                 commentdoc(comment_str),
                 HARDLINE if not last else NIL
@@ -707,7 +710,7 @@ def sequence_of_docs(ctx, left, docs, right, dangle=False, force_break=False):
                 commentdoc(comment_str),
                 HARDLINE,
                 doc,
-                COMMA if not last else NIL,
+                comma,
                 HARDLINE if not last else NIL
             ])
             parts.append(
@@ -725,7 +728,7 @@ def sequence_of_docs(ctx, left, docs, right, dangle=False, force_break=False):
                     concat([COMMA, LINE])
                 )
 
-    if dangle:
+    if dangle and not (docs and is_commented(docs[-1])):
         parts.append(COMMA)
 
     outer = (
